@@ -373,7 +373,7 @@ func newCAI(p *core.Program) *caiAn {
 		if sig.Params().Len() == 0 && sig.Results().Len() == 1 && isIntType(sig.Results().At(0).Type()) && len(fd.Body.List) == 1 && a.readsLenInstr(fd) {
 			a.curPos = m
 		}
-		if sig.Params().Len() == 0 && sig.Results().Len() == 1 && core.NamedOf(sig.Results().At(0).Type()) == a.loopT {
+		if sig.Results().Len() == 1 && core.NamedOf(sig.Results().At(0).Type()) == a.loopT {
 			hasLit := false
 			ast.Inspect(fd.Body, func(n ast.Node) bool {
 				if cl, ok := n.(*ast.CompositeLit); ok && core.NamedOf(a.info.TypeOf(cl)) == a.loopT {
